@@ -45,6 +45,10 @@ type GCBody struct {
 	Iters    int      `json:"iters"`
 	Auto     []bool   `json:"auto"` // autocommit per writer
 	TwoGCs   bool     `json:"two_gcs"`
+	// Crash: instead of racing writers, the collection runs alone and the server dies in it: crash
+	// images at the structural file-system events of CALL dolt_gc and after it (crash.go)
+	Crash bool      `json:"crash,omitempty"`
+	Only  *SQLCrash `json:"only,omitempty"`
 }
 
 func (GCX) Generate(seed uint64, tier string) *core.Scenario {
@@ -67,6 +71,7 @@ func (GCX) Generate(seed uint64, tier string) *core.Scenario {
 	for i := 0; i < b.NWriters; i++ {
 		b.Auto = append(b.Auto, r.Chance(1, 2))
 	}
+	b.Crash = r.Chance(1, 4)
 	raw, _ := json.Marshal(b)
 	return &core.Scenario{Property: "C08", Harness: "C08", Seed: seed, Tier: tier, Body: raw}
 }
@@ -434,6 +439,75 @@ func (GCX) Execute(t *testing.T, sc *core.Scenario) *core.Result {
 	fpSess.End()
 	if dbg := os.Getenv("DSIM_DEBUG_C08"); dbg != "" {
 		os.WriteFile(dbg, []byte(before), 0o644)
+	}
+
+	if b.Crash {
+		// the collection alone, and the server dies in it
+		vs.DsimWrapChunkStore(func(cs chunks.ChunkStore) chunks.ChunkStore {
+			if g, ok := cs.(gcPhaseStore); ok {
+				return g.GenerationalNBS
+			}
+			return cs
+		})
+		gs, err := w.NewSession(ctx, true)
+		if err != nil {
+			res.Panic = err.Error()
+			return res
+		}
+		var args []string
+		for _, f := range b.Flags {
+			args = append(args, "'"+f+"'")
+		}
+		start := sos.LogLen()
+		_, gerr := gs.Exec(ctx, "CALL dolt_gc("+strings.Join(args, ", ")+")")
+		end := sos.LogLen()
+		if gerr != nil {
+			res.Probe("gc_error:" + firstLine(gerr)[:min(60, len(firstLine(gerr)))])
+		} else {
+			res.Fault("gc" + strings.Join(b.Flags, ""))
+		}
+		log := append([]simos.Event(nil), sos.Log()...)
+		w.Close()
+		simos.Uninstall()
+		cases := sqlCrashCases(log, start, end, "test", 12, int(sc.Seed%11), b.Only)
+		forEachCrashImage(ctx, res, log, sc.Seed, cases, "CALL dolt_gc", func(w2 *World, c sqlCrashCase, desc string, pin func(*core.Violation)) {
+			s2, err := w2.NewSession(ctx, true)
+			if err != nil {
+				pin(res.Violate("server-unusable-after-crash", "what=session", 0, "%s: %s", desc, firstLine(err)))
+				return
+			}
+			after, err := gcFingerprint(ctx, s2, "test")
+			if err != nil {
+				pin(res.Violate("reachable-data-unreadable-after-gc", "when=crash;variant="+c.Variant.Name, 0, "%s: %s", desc, firstLine(err)))
+			} else if after != before {
+				pin(res.Violate("reachable-data-changed-by-gc", "when=crash;variant="+c.Variant.Name, 0, "%s: what the repository showed before the collection differs from what the recovered server shows:\n%s", desc, diffLines(before, after)))
+			}
+			if vs2, ok := w2.Env.DoltDB(ctx).ValueReadWriter().(*types.ValueStore); ok {
+				n, bad, err := walkStore(ctx, vs2)
+				if err != nil {
+					pin(res.Violate("store-walk-failed", "when=crash", 0, "%s: %s", desc, firstLine(err)))
+				} else if len(bad) > 0 {
+					pin(res.Violate("reachable-chunk-lost-by-gc", "when=crash;variant="+c.Variant.Name, 0, "%s: walking every reference from the recovered store root (%d chunks read): %s", desc, n, strings.Join(bad, "; ")))
+				} else {
+					res.ProbeN("chunks_walked", n)
+					res.Probe("recovered_after_crash_in_collection")
+				}
+			}
+		}, func(c SQLCrash) []byte {
+			b2 := b
+			b2.Only = &c
+			raw, _ := json.Marshal(b2)
+			return raw
+		})
+		res.Ops = len(b.History)
+		res.LogHash = fmt.Sprintf("%x", core.Hash64(append([]string{"crash"}, b.History...)...))
+		if res.Faults["crash:keep-all"]+res.Faults["crash:lose-all-unsynced"] > 2 {
+			res.CaseHashes = append(res.CaseHashes, core.Hash64(res.LogHash, fmt.Sprint(sc.Seed)))
+		} else {
+			res.Trivial = 1
+		}
+		res.Sample = map[string]any{"mode": "crash", "flags": b.Flags, "history": b.History, "crash_images": res.Faults["crash:keep-all"] + res.Faults["crash:lose-all-unsynced"] + res.Faults["crash:names-only"]}
+		return res
 	}
 
 	var mu sync.Mutex
